@@ -17,6 +17,7 @@ class Verbatim:
         self.text = text
         self.line = line
         self.inside = inside
+        self.root = False
 
 class Unit:
     def __init__(self, name):
@@ -39,9 +40,11 @@ def parse(path):
     def flush():
         nonlocal buf, cur_kind, cur_arg
         text = "\n".join(buf)
-        if cur_kind in ('verbatim', 'inside'):
+        if cur_kind in ('verbatim', 'inside', 'root'):
             if text.strip():
-                unit.entries.append(Verbatim(text, start_line, cur_kind == 'inside'))
+                v = Verbatim(text, start_line, cur_kind == 'inside')
+                v.root = (cur_kind == 'root')
+                unit.entries.append(v)
         elif cur_kind is not None and cur_item is not None:
             cur_item.parts.append((cur_kind, cur_arg, text))
         elif text.strip():
@@ -72,7 +75,7 @@ def parse(path):
             continue
         flush()
         start_line = ln
-        if d in ('verbatim', 'inside'):
+        if d in ('verbatim', 'inside', 'root'):
             cur_item = None
             cur_kind = d
         elif d == 'item':
@@ -107,7 +110,7 @@ def parse(path):
             cur_kind, cur_arg = 'at', (mm.group(1), int(mm.group(3)) if mm.group(3) else None)
         else:
             raise SpecError("%s:%d: unknown directive %s" % (path, ln, d))
-        if cur_item is None and cur_kind not in ('verbatim', 'inside', None):
+        if cur_item is None and cur_kind not in ('verbatim', 'inside', 'root', None):
             raise SpecError("%s:%d: %s outside of an item" % (path, ln, d))
     flush()
     if unit is None:
